@@ -204,10 +204,22 @@ def retained (fs : Fs) : Nat → List Msg
 /-- the generation files with a number below `n`, oldest first -/
 def generations (fs : Fs) (n : Nat) : List File := (List.range n).reverse.filterMap fs.get
 
-/-- a message the property's domain allows: it fits a generation on its own and, for the entry-counted
-    policy (which counts the lines of an existing file when it is re-opened), contains no newline -/
+/-- a message the property's domain allows: any length (also longer than a whole generation); for the
+    entry-counted policy (which counts the lines of an existing file when it is re-opened) it contains no
+    newline -/
+def Writable (cfg : Cfg) (m : Msg) : Prop :=
+  cfg.kind = .counted → 10 ∉ m
+
+/-- a writable message that also fits a generation on its own -/
 def Admissible (cfg : Cfg) (m : Msg) : Prop :=
   cost cfg m ≤ cfg.limit ∧ (cfg.kind = .counted → 10 ∉ m)
+
+/-- the limit clause of the property for one generation: it respects the limit, or it consists of exactly one
+    message (which then does not fit a generation on its own: there is nowhere else to put it) -/
+def GenOk (cfg : Cfg) (g : File) : Prop :=
+  size cfg g ≤ cfg.limit ∨ g.length = 1
+
+instance (cfg : Cfg) (g : File) : Decidable (GenOk cfg g) := by unfold GenOk; infer_instance
 
 /-- what the next message of a generation costs: its first message, or the cheapest message possible
     when there is none yet -/
